@@ -1,4 +1,21 @@
+//! C26 (contexts do not change the output) and C27 (coordinated checkpoints are consistent cuts).
+//!
+//! E3 of DESIGN.md: the real `ContextOrchestrator` spawns its real OS threads and tokio runtimes;
+//! the cfg-guarded `sched_point` hook parks every context thread at the top of each loop iteration
+//! and the explorer grants exactly one iteration at a time. A schedule is the sequence of actor
+//! choices; exploration is stateless DFS over schedules with a preemption bound (CHESS style),
+//! iterated 0,1,2,…. The scheduler hook is process-global, so the parent process shards the work
+//! units (configuration × preemption bound) over child processes.
+
+mod c26;
+mod c27;
+mod common;
+
 fn main() {
     let args = mc::parse_args();
-    mc::machinery_error(&format!("{} is not built yet", args.prop));
+    match args.prop.as_str() {
+        "C26" => c26::run(&args),
+        "C27" => c27::run(&args),
+        _ => mc::machinery_error("h_ctx serves C26 and C27"),
+    }
 }
